@@ -64,7 +64,11 @@ pub fn check(r: &ExecResult, pol: Pol, gated: bool, end: u8) -> Vec<Finding> {
     }
     // flush: when unsubscribe()/stop() returns, everything accepted into its channel and not
     // displaced has been delivered, and nothing is delivered afterwards
-    let subch: Vec<u32> = r.chans.iter().enumerate().filter(|(_, m)| elem_kind(m.elem) == "subch").map(|(i, _)| i as u32).collect();
+    // the subscriber's queue = what its delivery thread reads from (type names are not relied on)
+    let subch: Vec<u32> = match tasks.first() {
+        Some(&t) => chans_received_by(r, t),
+        None => r.chans.iter().enumerate().filter(|(_, m)| elem_kind(m.elem) == "subch").map(|(i, _)| i as u32).collect(),
+    };
     let mut ends: Vec<(usize, &str)> = vec![];
     if ended_by_unsub {
         if let Some(i) = rets(r, "unsubscribe").filter(|x| x.a as u32 == C).map(|x| x.i).next() {
